@@ -1,0 +1,46 @@
+// Licensed to Elasticsearch B.V. under one or more contributor
+// license agreements. See the NOTICE file distributed with
+// this work for additional information regarding copyright
+// ownership. Elasticsearch B.V. licenses this file to you under
+// the Apache License, Version 2.0 (the "License"); you may
+// not use this file except in compliance with the License.
+// You may obtain a copy of the License at
+//
+//     http://www.apache.org/licenses/LICENSE-2.0
+//
+// Unless required by applicable law or agreed to in writing,
+// software distributed under the License is distributed on an
+// "AS IS" BASIS, WITHOUT WARRANTIES OR CONDITIONS OF ANY
+// KIND, either express or implied.  See the License for the
+// specific language governing permissions and limitations
+// under the License.
+
+//go:build verif
+// +build verif
+
+package seccomp
+
+import (
+	"encoding/binary"
+
+	"github.com/elastic/go-seccomp-bpf/arch"
+)
+
+// This file is only compiled with the "verif" build tag. It exposes a few
+// unexported knobs to the external verification harness (/verif). It adds no
+// behaviour to the package.
+
+// VerifSetArch sets the policy's target architecture so that a policy can be
+// compiled for any syscall table on one host.
+func VerifSetArch(p *Policy, a *arch.Info) { p.arch = a }
+
+// VerifArch returns the policy's cached architecture.
+func VerifArch(p *Policy) *arch.Info { return p.arch }
+
+// VerifSetByteOrder overrides the byte order used to select the high and low
+// words of syscall arguments and returns a function restoring the old value.
+func VerifSetByteOrder(o binary.ByteOrder) (restore func()) {
+	old := nativeEndian
+	nativeEndian = o
+	return func() { nativeEndian = old }
+}
